@@ -49,9 +49,9 @@ KeyLines == LET bs == SelectSeq(e.obs.blocks, LAMBDA b : b.verb = KeyVerb)
                 RECURSIVE Cat(_)
                 Cat(s) == IF s = <<>> THEN <<>> ELSE Head(s).lines \o Cat(Tail(s))
             IN Cat(bs)
-OnePerPath == \A i, j \in 1..Len(KeyLines) : i # j => KeyLines[i].tokens[1] # KeyLines[j].tokens[1]
+OnePerPath == \A i, j \in 1..Len(KeyLines) : i # j => KeyLines[i].vals[1] # KeyLines[j].vals[1]
 CommentsKept == \A k \in {e.in.kept[i] : i \in 1..Len(e.in.kept)} :
-                    \E i \in 1..Len(KeyLines) : /\ KeyLines[i].tokens[1] = k.p
+                    \E i \in 1..Len(KeyLines) : /\ KeyLines[i].vals[1] = k.p
                                                 /\ ContainsStr(KeyLines[i].cb, k.cb)
                                                 /\ ContainsStr(KeyLines[i].cs, k.cs)
 Separated == (e.in.separable /\ e.in.op = "SetRequireSeparateIndirect") =>
@@ -62,9 +62,9 @@ ExactSet ==
     IF e.in.kind = "mod"
     THEN /\ Len(KeyLines) = Len(e.in.req)
          /\ \A r \in {e.in.req[i] : i \in 1..Len(e.in.req)} :
-               \E i \in 1..Len(KeyLines) : KeyLines[i].tokens = <<r.p, r.v>> /\ IsIndirect(KeyLines[i]) = r.ind
+               \E i \in 1..Len(KeyLines) : KeyLines[i].vals = <<r.p, r.v>> /\ IsIndirect(KeyLines[i]) = r.ind
     ELSE /\ Len(KeyLines) = Len(e.in.req)
-         /\ \A r \in {e.in.req[i] : i \in 1..Len(e.in.req)} : \E i \in 1..Len(KeyLines) : KeyLines[i].tokens = <<r>>
+         /\ \A r \in {e.in.req[i] : i \in 1..Len(e.in.req)} : \E i \in 1..Len(KeyLines) : KeyLines[i].vals = <<r>>
 AllSorted == \A i \in 1..Len(e.obs.blocks) : BlockSorted(e.obs.blocks[i], e.in.gov)
 
 Failed == (IF ExactSet THEN {} ELSE {"set"}) \cup (IF AllSorted THEN {} ELSE {"sorted"}) \cup (IF OnePerPath THEN {} ELSE {"one-per-path"})
